@@ -5,7 +5,7 @@ import os
 
 ROOT = os.path.dirname(os.path.dirname(os.path.abspath(__file__)))
 
-HOOK_COMMITS = ["4b32732", "5fd760e"]  # hook commits in /repo (build tag verif)
+HOOK_COMMITS = ["4b32732", "5fd760e", "49e9f71"]  # hook commits in /repo (build tag verif)
 
 CLAIMED = {
     "C06": dict(
@@ -78,6 +78,56 @@ CLAIMED["C04"] = dict(
          "panics (what is observed), silent over-reads are only possible within cap, hence cap = len. Leniencies are counted, not reported.",
     technique="TLA+ total reference parser (Codec!Parse) enumerated by TLC; spec-derived mutations; decoders run under recover against it",
     design="6 C04")
+
+CLAIMED["C01"] = dict(
+    text='TLC checks on the Broker specification that the subscription tree equals the sessions of the live connections, that only valid filters are stored and the step frame properties; the routing relation is MqttTopic!Matches (C06). Every behaviour of configuration routing (transition cover to depth 4/5, all paths to depth 2/3) is replayed into a real broker over net.Pipe: after every step the PUBLISH packets on every connection and every in-process callback must be exactly the bag the specification computes (topic, payload bytes, QoS = min, retain 0).',
+    note="Trusted: TLC, the raw-wire replayer (harness/broker.go), PINGREQ/PINGRESP barriers (rely on per-connection sequential processing), "
+         "the verif entry point VerifServe and the admit / stop.done events. Sequential regime only (one stimulus at a time); bounded vocabularies "
+         "and depths; a mismatch in this narrow configuration is attributed to this property (deliveries are its observable here).",
+    technique="TLA+ specification (Broker, sequential regime) model-checked with TLC; TLC-generated behaviours (transition cover / all paths) replayed into a real broker over net.Pipe",
+    design="6 C01")
+CLAIMED["C02"] = dict(
+    text='The receiver engine of the Broker specification (PUBACK then accept; store-unless-known + PUBREC; PUBREL marks, the released prefix is accepted in queue order, PUBCOMP also for unknown ids) is replayed for all operation sequences of depth 6/7 over two ids with DUP repeats of different content and ring-wrapping filler traffic: acks on the publisher and the hand-over to a witness subscriber are compared packet by packet.',
+    note="Trusted: TLC, the raw-wire replayer (harness/broker.go), PINGREQ/PINGRESP barriers (rely on per-connection sequential processing), "
+         "the verif entry point VerifServe and the admit / stop.done events. Sequential regime only (one stimulus at a time); bounded vocabularies "
+         "and depths; a mismatch in this narrow configuration is attributed to this property (deliveries are its observable here).",
+    technique="TLA+ specification (Broker, sequential regime) model-checked with TLC; TLC-generated behaviours (transition cover / all paths) replayed into a real broker over net.Pipe",
+    design="6 C02")
+CLAIMED["C07"] = dict(
+    text='ProcSubscribe/ProcUnsubscribe of the Broker specification: exactly one SUBACK per request with one code per filter in request order (granted = min(requested, max) or 0x80), UNSUBACK, effect at the ack (probe publishes). StepProps: a subscribe step always answers. Replayed: requests with 1..9 filters incl. invalid filters and QoS 3, transition cover to depth 5/6.',
+    note="Trusted: TLC, the raw-wire replayer (harness/broker.go), PINGREQ/PINGRESP barriers (rely on per-connection sequential processing), "
+         "the verif entry point VerifServe and the admit / stop.done events. Sequential regime only (one stimulus at a time); bounded vocabularies "
+         "and depths; a mismatch in this narrow configuration is attributed to this property (deliveries are its observable here).",
+    technique="TLA+ specification (Broker, sequential regime) model-checked with TLC; TLC-generated behaviours (transition cover / all paths) replayed into a real broker over net.Pipe",
+    design="6 C07")
+CLAIMED["C08"] = dict(
+    text='Retained store of the Broker specification (RetUpd: last non-empty retained publish per topic, empty payload clears exactly that topic; RetainedFor at subscribe time with retain 1 and QoS min(stored, granted); live forwards retain 0). Replayed: transition cover to depth 4/5 over parent/child/sibling topics, shorter/longer replacements, QoS 0..2, wildcard filters, big unrelated traffic.',
+    note="Trusted: TLC, the raw-wire replayer (harness/broker.go), PINGREQ/PINGRESP barriers (rely on per-connection sequential processing), "
+         "the verif entry point VerifServe and the admit / stop.done events. Sequential regime only (one stimulus at a time); bounded vocabularies "
+         "and depths; a mismatch in this narrow configuration is attributed to this property (deliveries are its observable here).",
+    technique="TLA+ specification (Broker, sequential regime) model-checked with TLC; TLC-generated behaviours (transition cover / all paths) replayed into a real broker over net.Pipe",
+    design="6 C08")
+CLAIMED["C09"] = dict(
+    text="End of the Broker specification: the will of THIS connection is accepted exactly when the end is not a DISCONNECT (cut, malformed packet), for fresh and resumed sessions. Replayed: all connect/end sequences of depth 6/7 (4 will variants x CleanSession x 3 kinds of end) plus a transition cover, with a witness subscribed to '#'. All paths are needed: the defect found here lived in implementation state the specification does not have.",
+    note="Trusted: TLC, the raw-wire replayer (harness/broker.go), PINGREQ/PINGRESP barriers (rely on per-connection sequential processing), "
+         "the verif entry point VerifServe and the admit / stop.done events. Sequential regime only (one stimulus at a time); bounded vocabularies "
+         "and depths; a mismatch in this narrow configuration is attributed to this property (deliveries are its observable here).",
+    technique="TLA+ specification (Broker, sequential regime) model-checked with TLC; TLC-generated behaviours (transition cover / all paths) replayed into a real broker over net.Pipe",
+    design="6 C09")
+CLAIMED["C10"] = dict(
+    text='Connect/End of the Broker specification on the session store: SessionPresent iff CleanSession 0 and a session was kept; stored filters active again before the first request; clean sessions leave nothing (TLC: SubsAreSessions, OneConnPerId). Replayed: transition cover to depth 5/6 and all paths to depth 4 over two client ids and two slots with probe publishes.',
+    note="Trusted: TLC, the raw-wire replayer (harness/broker.go), PINGREQ/PINGRESP barriers (rely on per-connection sequential processing), "
+         "the verif entry point VerifServe and the admit / stop.done events. Sequential regime only (one stimulus at a time); bounded vocabularies "
+         "and depths; a mismatch in this narrow configuration is attributed to this property (deliveries are its observable here).",
+    technique="TLA+ specification (Broker, sequential regime) model-checked with TLC; TLC-generated behaviours (transition cover / all paths) replayed into a real broker over net.Pipe",
+    design="6 C10")
+CLAIMED["C11"] = dict(
+    text="Refuse of the Broker specification: a first packet that is not an acceptable CONNECT gets the CONNACK code of its class (1, 2, 4) or none, the connection is closed and nothing else changes (StepProps: abs' = abs). Replayed: 14 refusal kinds with follow-up packets on the refused connection, accepting and rejecting authenticators, witness and retained-store probes.",
+    note="Trusted: TLC, the raw-wire replayer (harness/broker.go), PINGREQ/PINGRESP barriers (rely on per-connection sequential processing), "
+         "the verif entry point VerifServe and the admit / stop.done events. Sequential regime only (one stimulus at a time); bounded vocabularies "
+         "and depths; a mismatch in this narrow configuration is attributed to this property (deliveries are its observable here).",
+    technique="TLA+ specification (Broker, sequential regime) model-checked with TLC; TLC-generated behaviours (transition cover / all paths) replayed into a real broker over net.Pipe",
+    design="6 C11")
 
 NOT_APPLICABLE = {
     "C18": "data-race freedom is a property of individual memory accesses under the Go memory model; a TLA+ specification "
